@@ -154,9 +154,10 @@ def check_tree(ctx, shape, triples=True, pairs_cap=None, rng=None, prepared=None
             if L.level(nodes[a]) != M.depth[a]:
                 bad("level", (a,), L.level(nodes[a]), M.depth[a])
             cnt += 1
-        pair_list = list(itertools.product(range(n), repeat=2))
-        if pairs_cap and len(pair_list) > pairs_cap:
-            pair_list = rng.sample(pair_list, pairs_cap)
+        if pairs_cap and n * n > pairs_cap:
+            pair_list = [(rng.randrange(n), rng.randrange(n)) for _ in range(pairs_cap)]
+        else:
+            pair_list = list(itertools.product(range(n), repeat=2))
         for a, b in pair_list:
             na, nb = nodes[a], nodes[b]
             got = idx[L(na, nb)]
@@ -173,9 +174,10 @@ def check_tree(ctx, shape, triples=True, pairs_cap=None, rng=None, prepared=None
                     bad(kind, (a, b), g, w)
             cnt += 5
         if triples:
-            trip = list(itertools.product(range(n), repeat=3))
-            if pairs_cap and len(trip) > pairs_cap:
-                trip = rng.sample(trip, pairs_cap)
+            if pairs_cap and n ** 3 > pairs_cap:
+                trip = [(rng.randrange(n), rng.randrange(n), rng.randrange(n)) for _ in range(pairs_cap)]
+            else:
+                trip = list(itertools.product(range(n), repeat=3))
             for a, b, c in trip:
                 got = idx[L(nodes[a], nodes[b], nodes[c])]
                 want = M.lca(a, b, c)
@@ -361,6 +363,35 @@ def run(ctx, spec):
             sys.setrecursionlimit(10000)
             check_tree(ctx, shape_of(0), triples=True, pairs_cap=1500, rng=rng)
             check_reindexed(ctx, shape_of(0), random_ops(rng, n, rng.randint(1, 4)), rng=rng)
+        # big trees (hundreds to thousands of nodes): sparse-table levels 10+, Euler tours longer than 1024/2048 entries
+        for k in range(2 if ctx.tier == "quick" else 8):
+            n = rng.choice([300, 700, 1100, 1600, 2500])
+            kind = rng.choice(["rand", "binary", "deepish"])
+            parents = [None]
+            nch = {0: 0}
+            for v in range(1, n):
+                if kind == "binary":
+                    cand = [u for u in range(max(0, v - 40), v) if nch[u] < 2] or [u for u in range(v) if nch[u] < 2]
+                    p = rng.choice(cand)
+                elif kind == "deepish":
+                    p = rng.randrange(max(0, v - 6), v)
+                else:
+                    p = rng.randrange(v)
+                parents.append(p)
+                nch[p] += 1
+                nch[v] = 0
+            chb = {v: [] for v in range(n)}
+            for v in range(1, n):
+                chb[parents[v]].append(v)
+
+            def shape_big(v):
+                return tuple(shape_big(c) for c in chb[v]) if chb[v] else None
+
+            import sys
+
+            sys.setrecursionlimit(20000)
+            ctx.count("mon.big_trees")
+            check_tree(ctx, shape_big(0), triples=True, pairs_cap=4000, rng=rng)
     elif spec["kind"] == "rmq":
         idx = 0
         for n in range(1, spec["maxlen"] + 1):
@@ -380,6 +411,20 @@ def run(ctx, spec):
             for ln in (1, 2, 3, 4, 7, 8, 9, 15, 16, 17, 31, 32, 33, 63, 64, 65):
                 ranges += [(i, i + ln) for i in range(0, n - ln + 1)]
             ranges.append((0, n))
+            check_rmq(ctx, arr, ranges)
+        # long arrays: ranges wider than 1024 / 2048 / 4096 entries (top levels of the sparse table)
+        for _ in range(2 if ctx.tier == "quick" else 10):
+            n = rng.choice([1025, 1500, 2049, 3000, 4100, 5000])
+            arr = [rng.randint(0, 50) for _ in range(n)]
+            if rng.random() < 0.5:
+                # a unique minimum in the middle of the array: only visible to ranges that really cover it
+                arr = [x + 5 for x in arr]
+                arr[n // 2 + rng.randint(-20, 20)] = 0
+            ranges = [(rng.randint(0, n), rng.randint(0, n)) for _ in range(400)]
+            for ln in (511, 512, 513, 1023, 1024, 1025, 1026, 1500, 2047, 2048, 2049, 3000, 4095, 4096, 4097, n - 1, n):
+                if ln <= n:
+                    ranges += [(i, i + ln) for i in sorted({0, 1, 2, (n - ln) // 2, max(0, n - ln - 1), n - ln}) if i + ln <= n]
+            ctx.count("mon.big_arrays")
             check_rmq(ctx, arr, ranges)
     else:
         from rv import gen
